@@ -27,7 +27,7 @@ func c02(r *hx.Run) {
 	fx.Quiet()
 	client, v := stdClient()
 	delta := v.P.MaxOperationTimeDelta
-	r.Rule = "for every competition shape (forks of one update/recovery commitment, several creates, deactivate vs recover, replays, published vs unpublished twins), every injective assignment of (time, number) coordinates from the grid (non-monotone numbers included) and EVERY permutation of the store's return order (and both arrival paths of unpublished operations), resolve on the real processor; all permutations must agree and equal ref/sidetree ordered by (time, number), published first; metadata operation lists must come out in that order; histories of 13 and 16 operations (three- and four-way competitions, both chains, duplicate creates) on 18 structured coordinate assignments x 18-21 structured store orders (all rotations, reversal, strides, sorted ascending / descending) - long enough to leave the insertion-sort regime of the library's sort. Non-trivial: at least two operations compete for one commitment / create slot and the assignment is not already in store order."
+	r.Rule = "for every competition shape (forks of one update/recovery commitment, several creates, deactivate vs recover, replays, published vs unpublished twins), every injective assignment of (time, number) coordinates from the grid (non-monotone numbers included) and EVERY permutation of the store's return order (and both arrival paths of unpublished operations), resolve on the real processor; all permutations must agree and equal ref/sidetree ordered by (time, number), published first; metadata operation lists must come out in that order; the resolution at the version id of the latest published operation is the same for every store order; histories of 13 and 16 operations (three- and four-way competitions, both chains, duplicate creates) on 18 structured coordinate assignments x 18-21 structured store orders (all rotations, reversal, strides, sorted ascending / descending) - long enough to leave the insertion-sort regime of the library's sort. Non-trivial: at least two operations compete for one commitment / create slot and the assignment is not already in store order."
 	g9 := []Coord{}
 	for t := uint64(1); t <= 3; t++ {
 		for n := uint64(0); n <= 2; n++ {
@@ -127,6 +127,14 @@ func c02(r *hx.Run) {
 			r.State()
 			key := fmt.Sprintf("shape%d|%s", si, HistKey(placed))
 			r.Outcome(fmt.Sprintf("shape%d:%s", si, model.Abstract()))
+			// the latest published operation: a resolution at its version id sees every published operation, in any store order
+			var latest *fx.Placed
+			for i := range placed {
+				if placed[i].Published && (latest == nil || placed[i].Time > latest.Time || (placed[i].Time == latest.Time && placed[i].Num > latest.Num)) {
+					latest = &placed[i]
+				}
+			}
+			var vidFirst *Result
 			check := func(order []int, mode int) {
 				caseID := fmt.Sprintf("%s|perm=%v|mode=%d", key, order, mode)
 				if !r.Want(caseID) {
@@ -135,6 +143,17 @@ func c02(r *hx.Run) {
 				ordered := make([]fx.Placed, n)
 				for i, o := range order {
 					ordered[i] = placed[o]
+				}
+				if mode == 0 && latest != nil && (len(order) < 4 || order[0]%2 == 0) {
+					rmV, errV := ResolveImpl(client, pool.Suffix, ordered, document.WithVersionID(latest.Ref()))
+					gotV := ProjectImpl(rmV, errV)
+					r.Eval()
+					if vidFirst == nil {
+						vidFirst = &gotV
+					} else if gotV != *vidFirst {
+						r.Violation(fmt.Sprintf("order-dependence:version-id:shape=%s:%s", strings.Join(sh.ops, "+"), diffFields(gotV, *vidFirst)), caseID+"|versionId",
+							fmt.Sprintf("operations %v resolved at the version id of the latest published operation (%s) depend on the store order %v\n  this order : %s\n  first order: %s", placedDesc(placed), latest.Ref(), order, gotV, *vidFirst), nil)
+					}
 				}
 				rm, err := c02Resolve(client, pool.Suffix, ordered, mode)
 				got := ProjectImpl(rm, err)
